@@ -245,10 +245,7 @@ theorem treeClaim_leaf (n : List UInt8) (v : Option (List UInt8)) : TreeClaim d 
     | none => trivial
     | some x => simpa [OptValOk] using hok.2
   have hdk := hd k
-  have hdk' := hdk
-  unfold LineDecor.ok at hdk'
-  simp only [Bool.and_eq_true] at hdk'
-  obtain ⟨⟨⟨⟨_, _⟩, hpre⟩, hpost⟩, htr⟩ := hdk'
+  obtain ⟨hpre, hpost, htr, hht⟩ := LineDecor.ok_parts _ hdk
   have hjunk := visSkip_lead J (d k) hr.junk hdk
   have hsrc : src.rest = (J ++ (d k).before ++ (d k).indent) ++ n ++ (d k).pre ++
       61 :: ((d k).post ++ valueText v ++ (d k).trail ++ 10 :: rest) := by
@@ -299,14 +296,11 @@ theorem treeClaim_section (n : List UInt8) (v : Option (List UInt8)) (cs : Fores
     exact this.2
   -- the section start line
   have hdk := hd k
-  have hdk' := hdk
-  unfold LineDecor.ok at hdk'
-  simp only [Bool.and_eq_true] at hdk'
-  obtain ⟨⟨⟨⟨_, _⟩, hpre⟩, _⟩, htr⟩ := hdk'
+  obtain ⟨hpre, _, htr, hht⟩ := LineDecor.ok_parts _ hdk
   have hjunk := visSkip_lead J (d k) hr.junk hdk
   let k2 := k + 1 + braceLines cs
   have hsrc : src.rest = (J ++ (d k).before ++ (d k).indent) ++ n ++ (d k).pre ++
-      123 :: (((d k).trail ++ [10]) ++ (renderBrace d (k + 1) cs ++ (closeLine (d k2) ++ rest))) := by
+      123 :: ((headTrail (d k) ++ [10]) ++ (renderBrace d (k + 1) cs ++ (closeLine (d k2) ++ rest))) := by
     rw [hr.src]
     simp [renderTree, hce, openLine, List.append_assoc, k2]
   obtain ⟨s1, src1, heq, ⟨l, fi', v', ln', hs1⟩, hrest⟩ :=
@@ -318,20 +312,17 @@ theorem treeClaim_section (n : List UInt8) (v : Option (List UInt8)) (cs : Fores
   have hmode1 : Mode true (dep + 1) { forest := appendAt dep b.forest (.node n none []), depth := dep + 1 } s1.curr := by
     rw [hs1]; simp [Mode, Flag.sectEnd, Flag.section_, Flag.name]
   have hready1 : Ready (e ++ [n]) { s1 with path := Pth (e ++ [n]) [] false fi', curr := 0, valid := 0 } src1
-      ((d k).trail ++ [10]) (renderBrace d (k + 1) cs ++ (closeLine (d k2) ++ rest)) :=
-    ⟨clean_pth _ _, rfl, visSkip_trail _ htr, hrest⟩
+      (headTrail (d k) ++ [10]) (renderBrace d (k + 1) cs ++ (closeLine (d k2) ++ rest)) :=
+    ⟨clean_pth _ _, rfl, visSkip_headTrail _ hht, hrest⟩
   obtain ⟨b2, prev2, s2, src2, J2, hr2, hm2, hf2, hs2, heq2⟩ :=
     hcs (k + 1) (dep + 1) (e ++ [n]) _ s1.curr _ src1 _ _ true hcok hready1 hmode1
       (hasSpine_appendAt_succ dep b.forest n none [] hs)
   simp only [hce, Bool.and_false] at hm2
   -- the section end line
   have hdk2 := hd k2
-  have hdk2' := hdk2
-  unfold LineDecor.ok at hdk2'
-  simp only [Bool.and_eq_true] at hdk2'
-  obtain ⟨⟨⟨⟨_, _⟩, _⟩, _⟩, htr2⟩ := hdk2'
+  obtain ⟨_, _, htr2, hht2⟩ := LineDecor.ok_parts _ hdk2
   have hjunk2 := visSkip_lead J2 (d k2) hr2.junk hdk2
-  have hsrc2 : src2.rest = (J2 ++ (d k2).before ++ (d k2).indent) ++ 125 :: (((d k2).trail ++ [10]) ++ rest) := by
+  have hsrc2 : src2.rest = (J2 ++ (d k2).before ++ (d k2).indent) ++ 125 :: ((headTrail (d k2) ++ [10]) ++ rest) := by
     rw [hr2.src]; simp [closeLine, List.append_assoc]
   obtain ⟨ln3, src3, heq3, hrest3⟩ := pre_close_line (e ++ [n]) s2 src2 _ _ hr2.clean hr2.valid hjunk2 hsrc2
   have hna3 := nodeAppend_end dep b2 prev2 (Stt (e ++ [n]) [125] false s2.path.first 0 Flag.sectEnd ln3) hm2
@@ -339,8 +330,8 @@ theorem treeClaim_section (n : List UInt8) (v : Option (List UInt8)) (cs : Fores
   have hstep3 := loop_step_pre b2 _ prev2 s2 _ src2 src3 2 _ heq3 (by decide) hna3 hafter3
   refine ⟨{ b2 with depth := dep + 1 }, Flag.sectEnd,
     { (Stt (e ++ [n]) [125] false s2.path.first 0 Flag.sectEnd ln3) with
-      path := Pth e [] false fi3, curr := 0, valid := 0 }, src3, (d k2).trail ++ [10],
-    ⟨clean_pth e fi3, rfl, visSkip_trail _ htr2, hrest3⟩, ?_, ?_, ?_, ?_⟩
+      path := Pth e [] false fi3, curr := 0, valid := 0 }, src3, headTrail (d k2) ++ [10],
+    ⟨clean_pth e fi3, rfl, visSkip_headTrail _ hht2, hrest3⟩, ?_, ?_, ?_, ?_⟩
   · simp [Mode, Flag.sectEnd]
   · simp only [hf2]
     rw [appendAll_child dep b.forest n none (norm cs) hs]
